@@ -41,11 +41,17 @@ def run_case(period, align_kind, phase_f, lates, sink_lat, add_at):
         src = Broadcast(name="src")
         keep = []
 
+        inflight = [0]
+
         def mk(name):
             async def sink(s):
                 lat = sink_lat.get((name, len(out[name])))
                 if lat:
-                    await asyncio.sleep(lat * period)
+                    inflight[0] += 1
+                    try:
+                        await asyncio.sleep(lat * period)
+                    finally:
+                        inflight[0] -= 1
                 out[name].append(s.timestamp)
 
             return sink
@@ -91,6 +97,15 @@ def run_case(period, align_kind, phase_f, lates, sink_lat, add_at):
                 break
         loop.set_time(H)
         loop.settle()
+        # let a sink call that is still sleeping at the horizon finish, so that the injected delay is
+        # absorbed before the timeline is judged
+        limit = H + 8 * period
+        while inflight[0] > 0 and loop.time() < limit:
+            nt = loop.next_timer()
+            if nt is None:
+                break
+            loop.set_time(min(max(nt, loop.time()), limit))
+            loop.settle()
         end_now = loop.wall_now()
         task.cancel()
         loop.settle()
